@@ -7,7 +7,7 @@
 #include "hcommon.h"
 #include <dispatch/private.h>
 
-typedef struct { const char *name; int nthr; int vals[3][3]; int suspended, reentrant, inactive, nulltarget; } script;
+typedef struct { const char *name; int nthr; int vals[3][3]; int suspended, reentrant, inactive, nulltarget, selfsuspend; } script;
 static const script SCRIPTS[] = {
 	{ "T0:[1] T1:[2]", 2, { {1}, {2} }, 0, 0 },
 	{ "T0:[1,4] T1:[2]", 2, { {1, 4}, {2} }, 0, 0 },
@@ -22,6 +22,9 @@ static const script SCRIPTS[] = {
 	{ "default target (NULL) reentrant T0:[1]", 1, { {1} }, 0, 1, 0, 1 },
 	{ "default target (NULL) reentrant T0:[1] T1:[2]", 2, { {1}, {2} }, 0, 1, 0, 1 },
 	{ "default target (NULL) T0:[1,4] T1:[2]", 2, { {1, 4}, {2} }, 0, 0, 0, 1 },
+	// the first handler invocation suspends its own source and then merges: nothing may be delivered before dispatch_resume
+	{ "default target (NULL), the handler suspends its source and merges 32 T0:[1]", 1, { {1} }, 0, 1, 0, 1, 1 },
+	{ "the handler suspends its source and merges 32 T0:[1] T1:[2]", 2, { {1}, {2} }, 0, 1, 0, 0, 1 },
 };
 #define NSCRIPTS ((int)(sizeof(SCRIPTS) / sizeof(SCRIPTS[0])))
 static const char *const TYPES[] = { "DATA_ADD", "DATA_OR", "DATA_REPLACE" };
@@ -33,7 +36,7 @@ static dispatch_source_t g_src;
 static const script *g_s;
 static int g_type, g_seen_sentinel, g_first = 1, g_reent_done, g_ninv;
 static unsigned long g_sum, g_or;
-enum { EV_MERGE_CALL = EV_USER, EV_MERGE_RET, EV_DELIVER };
+enum { EV_MERGE_CALL = EV_USER, EV_MERGE_RET, EV_DELIVER, EV_SELF_SUSPENDED, EV_SELF_RESUME };
 
 static void handler(void *ctx)
 {
@@ -46,6 +49,7 @@ static void handler(void *ctx)
 	if (g_type == 2 ? v == SENTINEL : (v & SENTINEL)) g_seen_sentinel = 1;
 	if (g_s->reentrant && g_first) {
 		g_first = 0;
+		if (g_s->selfsuspend) { dispatch_suspend(g_src); vx_ev(EV_SELF_SUSPENDED, 0, 0); }
 		vx_ev(EV_MERGE_CALL, 99, 32);
 		dispatch_source_merge_data(g_src, 32);
 		vx_ev(EV_MERGE_RET, 99, 32);
@@ -98,6 +102,11 @@ static void run(int v)
 		// the sentinel must be the strictly last merge: wait for the handler's own merge first
 		int *c[2] = { &g_reent_done, (int *)(intptr_t)1 };
 		vx_wait_until(pred_int_ge, c);
+		if (g_s->selfsuspend) {
+			vx_sleep_ns(1 * MS);            // time for a wrongly delivered value to show
+			vx_ev(EV_SELF_RESUME, 0, 0);
+			dispatch_resume(g_src);
+		}
 		// ... and that merge must be delivered by a further invocation WITHOUT any help from a later merge
 		// (a stuck witness here means the value merged from the handler was left pending with the source idle)
 		int *c2[2] = { &g_ninv, (int *)(intptr_t)2 };
@@ -132,6 +141,10 @@ static int check(int v, const vx_log *l, char *msg, size_t len)
 	}
 	int id = HANDLER;
 	if (orc_disjoint(l, &id, 1, msg, len)) return 1;
+	int susp = ev_first(l, EV_SELF_SUSPENDED, 0), resm = ev_first(l, EV_SELF_RESUME, 0);
+	if (susp >= 0) for (uint32_t i = 0; i < l->n; i++)
+		if (l->ev[i].kind == EV_START && l->ev[i].id == HANDLER && (int)i > susp && (resm < 0 || (int)i < resm))
+			FAILF(msg, len, "the event handler was invoked (event #%u) while the source was suspended (dispatch_suspend returned at event #%d, dispatch_resume called at event #%d)", i, susp, resm);
 	if (type == 0 && dsum != msum) FAILF(msg, len, "DATA_ADD: merged values sum to %lu but handler invocations delivered %lu in %d invocations", msum, dsum, nd);
 	if (type == 1 && dor != mor) FAILF(msg, len, "DATA_OR: merged masks union is 0x%lx but delivered union is 0x%lx", mor, dor);
 	if (type == 2 && last != SENTINEL) FAILF(msg, len, "DATA_REPLACE: the final merge (%d, issued after every other merge returned) was not the last value delivered (last = %lu)", SENTINEL, last);
